@@ -574,7 +574,7 @@ def gen_system(rng):
                                    ("Gypsum", 0.0, "CaSO4:2H2O %s" % fnum(max(m, 1e-3))), ("Calcite", 0.0, "CaCO3 %s" % fnum(max(m, 1e-3)))])
         if rng.random() < 0.3:
             comps.append(("CO2(g)", round(rng.uniform(-3.5, -1.0), 2), rng.choice([10, 0.01, 0.001])))
-        S["pp"] = comps
+        S["pp"] = list({c[0]: c for c in comps}.values())       # one line per phase
     S["fixph"] = False
     if rng.random() < 0.3:
         # pH-stat idiom: pseudo phase Fix_H+ with an alternative reactant
@@ -843,7 +843,7 @@ KINDS = [("EXCHANGE", "exchange"), ("SURFACE", "surface"), ("GAS_PHASE", "gas"),
 def pp_def_block(chem, comps):
     """a freshly defined EQUILIBRIUM_PHASES block in the shape parse_dump gives (std::map order = sorted by name)"""
     b, elts = [], set()
-    for nm, si, m in sorted(comps, key=lambda c: c[0]):
+    for nm, si, m in sorted({c[0]: c for c in comps}.values(), key=lambda c: c[0]):      # a repeated name: last line wins
         alt, moles, flag = pp_parse(m)
         b.append(("component", [nm], []))
         if alt:
